@@ -3,6 +3,6 @@ CONSTANTS
   EPs = {"execservice", "graffiti", "builderbid", "proposalbest", "proposer", "attester", "aggregator", "syncmessenger", "syncaggregator", "mergeduties", "cacheevents", "submitclassify"}
   MaxCalls = 4
   MaxInFlight = 2
-INVARIANTS TypeOK KeepsRunning EndsProperly HistoryIndependent BoundedOverlap Total
+INVARIANTS TypeOK KeepsRunning EndsProperly HistoryIndependent AuxFaultsSurvived BoundedOverlap Total
 PROPERTIES EveryCallReturns
 CHECK_DEADLOCK FALSE
